@@ -295,6 +295,22 @@ def r3(ctx):
     st = [s for s in util.store_sites(run.node) if s.kind == "subscript" and u(s.target.value) == "phased"]
     ok = len(st) == 1 and u(st[0].target.slice) == "variant.position" and u(st[0].value) == "phase"
     ctx.ob(run.qual, "input-phase-recorded-per-position", ok, run.loc(st[0].stmt) if st else run.loc(), "phased[position] = the call's input phase for every variant" if ok else "the input phase is not recorded per position")
+    # ... of the table as it was read: no row of the chromosome's table is removed or replaced before the phases are collected
+    tl = [n for n in walk_function(run.node) if isinstance(n, ast.For) and isinstance(n.target, ast.Name) and "vcf_reader" in u(n.iter) and not u(n.iter).endswith(".samples") and st and any(x is st[0].stmt for x in ast.walk(n))]
+    if len(tl) == 1:
+        tv = tl[0].target.id
+        muts = []
+        for c in ctx.prog.calls_in(tl[0]):
+            if isinstance(c.func, ast.Attribute) and u(c.func.value) == tv:
+                m = ctx.prog.functions.get("whatshap.vcf.VariantTable.%s" % c.func.attr)
+                if m is not None and any(util.root_name(s_.target) == "self" for s_ in util.store_sites(m.node)):
+                    muts.append(c)
+        muts += [s_.stmt for s_ in util.store_sites(tl[0]) if util.root_name(s_.target) == tv]
+        rebinds = [s_ for s_, v_ in util.assignments_to(tl[0], tv) if isinstance(s_, ast.stmt) and s_ is not tl[0]]
+        bad = muts + rebinds
+        ctx.ob(run.qual, "table-not-edited-before-phases-are-collected", not bad, run.loc(bad[0]) if bad else run.loc(tl[0]), "the chromosome's variant table reaches the phase collection as it was read: every already phased call is carried to the writer" if not bad else "`%s` changes the variant table before the input phases are collected: calls that were phased in the input are dropped from `phased` and leave the writer unphased" % u(bad[0])[:90])
+    else:
+        ctx.ob(run.qual, "table-not-edited-before-phases-are-collected", None, run.loc(), "chromosome loop over the VCF reader not found")
     vr = [c for c in ctx.prog.calls_in(run.node) if u(c.func) == "VcfReader"]
     ok = any(any(k.arg == "phases" and isinstance(k.value, ast.Constant) and k.value.value is True for k in c.keywords) for c in vr)
     ctx.ob(run.qual, "input-phase-is-read", ok, run.loc(), "the input VCF is read with phases=True" if ok else "the input VCF is read without phases")
